@@ -1,6 +1,7 @@
 package main
 
 import (
+	"os"
 	"fmt"
 	"go/ast"
 	"go/constant"
@@ -210,7 +211,7 @@ func c08R2(p *Prog, r *Report, id string) {
 				c := exprString(g.Cond)
 				ok := false
 				switch {
-				case g.Neg && (c == "!ok"):
+				case g.Neg && isNegatedCommaOkAssert(info, fi.Decl, g.Cond, "go/types", "Const"):
 					ok = true // c, ok := scope.Lookup(name).(*types.Const); if !ok { continue }
 				case !g.Neg && strings.HasPrefix(c, "types.Identical("):
 					ok = true
@@ -273,7 +274,11 @@ func c08R2(p *Prog, r *Report, id string) {
 	var leafOK func(s ast.Stmt) bool
 	appendsCase := func(s ast.Stmt, kinds ...string) bool {
 		as, ok := s.(*ast.AssignStmt)
-		if !ok || len(as.Lhs) != 1 || exprString(as.Lhs[0]) != "cases" {
+		if !ok || len(as.Lhs) != 1 {
+			return false
+		}
+		// the accumulator of the emitted switch cases: a local of type []jen.Code
+		if t := info.TypeOf(as.Lhs[0]); t == nil || t.String() != "[]"+jenPath+".Code" {
 			return false
 		}
 		call, ok := ast.Unparen(as.Rhs[0]).(*ast.CallExpr)
@@ -474,21 +479,91 @@ func c08R2(p *Prog, r *Report, id string) {
 		r.Bad("builder.(*Enum).Build/unknown policy", p.PosStr(fi.Decl.Pos()), "success is reachable without a configured enum:unknown or without a default arm in the emitted switch")
 	}
 	// caseAction: mapped target must exist
-	if ca := p.Func("builder.caseAction"); ca != nil {
-		ok := false
-		ast.Inspect(ca.Decl, func(n ast.Node) bool {
-			ifs, isIf := n.(*ast.IfStmt)
-			if isIf && exprString(ifs.Cond) == "!ok" && endsInExit(ifs.Body) {
-				ok = true
+	if ca, csf := needFunc(p, r, "builder.caseAction"); ca != nil {
+		// the comma-ok of a lookup of the (string) target name in the Members of the *xtype.Enum parameter
+		var enumPrm, namePrm *ssa.Parameter
+		for _, prm := range csf.Params {
+			if isNamed(derefType(prm.Type()), modPath+"/xtype", "Enum") {
+				enumPrm = prm
+			} else if enumPrm != nil && namePrm == nil && types.Identical(prm.Type().Underlying(), types.Typ[types.String]) {
+				namePrm = prm
 			}
-			return true
-		})
-		if ok && strings.Contains(nodeString(ca.Decl), "targetEnum.Members[targetName]") {
+		}
+		isLookupOk := func(c ssa.Value) bool {
+			ex, ok := c.(*ssa.Extract)
+			if !ok || ex.Index != 1 {
+				return false
+			}
+			lk, ok := ex.Tuple.(*ssa.Lookup)
+			if !ok || !lk.CommaOk || lk.Index != ssa.Value(namePrm) {
+				return false
+			}
+			ld, ok := lk.X.(*ssa.UnOp)
+			if !ok {
+				return false
+			}
+			fa, ok := ld.X.(*ssa.FieldAddr)
+			return ok && fieldName(fa) == "Members" && rootParam(fa.X) == enumPrm
+		}
+		okExists := false
+		if enumPrm != nil && namePrm != nil {
+			for _, b := range csf.Blocks {
+				ifi, ok := b.Instrs[len(b.Instrs)-1].(*ssa.If)
+				if !ok || !isLookupOk(ifi.Cond) {
+					continue
+				}
+				if g := existsPath(b.Succs[1], 0, func(x ssa.Instruction) bool {
+					ret, ok := x.(*ssa.Return)
+					return ok && isSuccessReturn(ret)
+				}, nil); g == nil {
+					okExists = true
+				}
+			}
+		}
+		if okExists {
 			r.OK("builder.caseAction/target exists", p.PosStr(ca.Decl.Pos()), "a target name that is not a member of the target enum is an error")
 		} else {
-			r.Bad("builder.caseAction/target exists", p.PosStr(ca.Decl.Pos()), "a mapped target member is no longer checked for existence")
+			dbg := ""
+			if os.Getenv("GVDEBUG") != "" {
+				dbg = fmt.Sprintf(" [enumPrm=%v namePrm=%v]", enumPrm, namePrm)
+				for _, b := range csf.Blocks {
+					if ifi, ok := b.Instrs[len(b.Instrs)-1].(*ssa.If); ok {
+						dbg += fmt.Sprintf(" if %s(%T)", ifi.Cond, ifi.Cond)
+						if ex, ok := ifi.Cond.(*ssa.Extract); ok {
+							dbg += fmt.Sprintf("<-%s", ex.Tuple)
+						}
+					}
+				}
+			}
+			r.Bad("builder.caseAction/target exists", p.PosStr(ca.Decl.Pos()), "a mapped target member is no longer checked for existence"+dbg)
 		}
 	}
+}
+
+// isNegatedCommaOkAssert: cond is `!ok` where ok is the comma-ok result of a type assertion to *pkg.name in fn.
+func isNegatedCommaOkAssert(info *types.Info, fn ast.Node, cond ast.Expr, pkg, name string) bool {
+	u, ok := ast.Unparen(cond).(*ast.UnaryExpr)
+	if !ok || u.Op != token.NOT {
+		return false
+	}
+	id, ok := ast.Unparen(u.X).(*ast.Ident)
+	if !ok {
+		return false
+	}
+	obj := info.ObjectOf(id)
+	found := false
+	ast.Inspect(fn, func(n ast.Node) bool {
+		as, isAs := n.(*ast.AssignStmt)
+		if isAs && len(as.Lhs) == 2 && len(as.Rhs) == 1 {
+			if l, isID := as.Lhs[1].(*ast.Ident); isID && info.ObjectOf(l) == obj {
+				if ta, isTA := ast.Unparen(as.Rhs[0]).(*ast.TypeAssertExpr); isTA && ta.Type != nil && isNamed(derefType(info.TypeOf(ta.Type)), pkg, name) {
+					found = true
+				}
+			}
+		}
+		return true
+	})
+	return found
 }
 
 func nodeString(n ast.Node) string {
